@@ -131,6 +131,8 @@ pub enum Focus {
 pub struct HistKnobs {
     pub focus: Focus,
     pub max_ops: usize,
+    pub min_ops: usize,
+    pub update_heavy: bool,
     pub max_clients: usize,
     pub min_clients: usize,
     pub model: ModelKnobs,
@@ -139,12 +141,14 @@ pub struct HistKnobs {
 
 impl HistKnobs {
     pub fn for_focus(focus: Focus) -> Self {
-        Self { focus, max_ops: 24, max_clients: 4, min_clients: 1, model: ModelKnobs::default(), max_text: 10000 }
+        Self { focus, max_ops: 24, min_ops: 1, update_heavy: false, max_clients: 4, min_clients: 1, model: ModelKnobs::default(), max_text: 10000 }
     }
     pub fn miri() -> Self {
         Self {
             focus: Focus::C08,
             max_ops: 4,
+            min_ops: 1,
+            update_heavy: false,
             max_clients: 3,
             min_clients: 2,
             model: ModelKnobs { max_window: 2, max_type_window: 1, core_only: true, extreme_values: false, allow_big_windows: false, max_entries: 3, want_tags: None },
@@ -222,7 +226,7 @@ fn gen_update(rng: &mut Rng, k: &HistKnobs, ctor: bool, recent: &mut Vec<Vec<cha
     };
     match rng.below(3) {
         0 => {
-            let s = if related { related_chars(rng, recent).into_iter().collect() } else { clip(gen::gen_raw_input(rng), k.max_text) };
+            let s = if related { related_chars(rng, recent).into_iter().take(k.max_text).collect() } else { clip(gen::gen_raw_input(rng), k.max_text) };
             remember(s.chars().collect(), recent);
             let owned = rng.chance(1, 2);
             if ctor {
@@ -234,7 +238,8 @@ fn gen_update(rng: &mut Rng, k: &HistKnobs, ctor: bool, recent: &mut Vec<Vec<cha
         1 => {
             if related || (rng.chance(9, 20) && k.max_text >= 12) {
                 let a = if related {
-                    let cs = related_chars(rng, recent);
+                    let mut cs = related_chars(rng, recent);
+                    cs.truncate(k.max_text);
                     gen::gen_annotated_over(rng, cs, false)
                 } else {
                     gen::gen_annotated(rng, false)
@@ -258,7 +263,8 @@ fn gen_update(rng: &mut Rng, k: &HistKnobs, ctor: bool, recent: &mut Vec<Vec<cha
         _ => {
             if related || (rng.chance(9, 20) && k.max_text >= 12) {
                 let a = if related {
-                    let cs = related_chars(rng, recent);
+                    let mut cs = related_chars(rng, recent);
+                    cs.truncate(k.max_text);
                     gen::gen_annotated_over(rng, cs, true)
                 } else {
                     gen::gen_annotated(rng, true)
@@ -313,6 +319,12 @@ pub fn gen_plan(rng: &mut Rng, k: &HistKnobs) -> HistPlan {
     let n_models = rng.range(1, 2);
     let mut models = vec![];
     for i in 0..n_models {
+        // one run in eight works with one of the repository's real models (and, through the
+        // text generator, with the real sentences they were trained on)
+        if i == 0 && !k.model.core_only && !crate::mmodel::real_models().is_empty() && rng.chance(1, 8) {
+            models.push(rng.pick(crate::mmodel::real_models()).clone());
+            continue;
+        }
         let mut mk = k.model;
         if i == 0 && mk.want_tags.is_none() && rng.chance(1, 2) {
             mk.want_tags = Some(true);
@@ -336,11 +348,11 @@ pub fn gen_plan(rng: &mut Rng, k: &HistKnobs) -> HistPlan {
     .max(k.min_clients);
     let mut clients = vec![];
     for _ in 0..n_clients {
-        let n_ops = rng.range(1, k.max_ops);
+        let n_ops = rng.range(k.min_ops, k.max_ops);
         let mut ops = vec![];
         let mut recent: Vec<Vec<char>> = vec![];
         // swarm: each client draws its own operation mix
-        let w_update = if k.focus == Focus::C05 { rng.range(20, 60) } else { rng.range(8, 30) };
+        let w_update = if k.update_heavy { 400 } else if k.focus == Focus::C05 { rng.range(20, 60) } else { rng.range(8, 30) };
         let w_ctor = rng.range(0, 6);
         let w_reset = rng.range(0, 12);
         let w_predict = if k.focus == Focus::C05 { rng.range(2, 25) } else { rng.range(10, 40) };
